@@ -2,8 +2,38 @@
 
 package node
 
+import "sort"
+
 // VerifPool exposes pool counters for the deterministic simulator. Only call
 // from a tracer callback or handler of the supervisor machine.
 func (s *Supervisor) VerifPool() (tracked, ready, min, max int) {
 	return len(s.workers), len(s.readyWorkers()), s.min(), s.Max
+}
+
+// VerifWorker is the raw tracking data of one worker.
+type VerifWorker struct {
+	Addr       string
+	HasRpc     bool
+	Ready      bool
+	Errs       int
+	ErrsRecent int
+}
+
+// VerifWorkers lists the tracked workers, sorted by address. Only call from a
+// tracer callback or handler of the supervisor machine.
+func (s *Supervisor) VerifWorkers() []VerifWorker {
+	ret := make([]VerifWorker, 0, len(s.workers))
+	for addr, info := range s.workers {
+		w := VerifWorker{Addr: addr}
+		if info != nil {
+			w.HasRpc = info.rpc != nil && info.rpc.NetMach != nil
+			w.Ready = w.HasRpc && info.rpc.NetMach.Is1(ssW.Ready)
+			w.Errs = info.errs.ItemCount()
+			w.ErrsRecent = info.errsRecent.ItemCount()
+		}
+		ret = append(ret, w)
+	}
+	sort.Slice(ret, func(i, j int) bool { return ret[i].Addr < ret[j].Addr })
+
+	return ret
 }
